@@ -186,3 +186,41 @@ package shaping
 //@     | (runeToGlyph[option.breakAtRune-out.Runes.Offset] >= len(out.Glyphs) || runeToGlyph[option.breakAtRune-out.Runes.Offset+1] >= len(out.Glyphs) ||
 //@     | out.Glyphs[runeToGlyph[option.breakAtRune-out.Runes.Offset]].ClusterIndex == out.Glyphs[runeToGlyph[option.breakAtRune-out.Runes.Offset+1]].ClusterIndex))
 //@   modifies nothing
+//
+// ---------------------------------------------------------------------------------------------
+// Property C01: "all glyphs of a cluster carry the same rune and glyph counts ..." (countClusters), run-bound clamping.
+//@ func clamp C01
+//@   mode bv
+//@   ensures [in-range] implies(low <= high, low <= result && result <= high)
+//@   ensures [identity-inside] implies(low <= val && val <= high, result == val)
+//@   ensures [saturates] implies(low <= high && val < low, result == low) && implies(low <= high && val > high, result == high)
+//@   modifies nothing
+//
+// Preconditions = the assumed HarfBuzz output contract: cluster values are rune indices below textLen, monotone in the reading direction.
+//@ spec clustersMonotone(gs []Glyph, rtl bool) bool = forall(k, 0, len(gs), forall(l, k, len(gs), ite(rtl, gs[k].ClusterIndex >= gs[l].ClusterIndex, gs[k].ClusterIndex <= gs[l].ClusterIndex)))
+//@ func countClusters C01
+//@   mode int
+//@   requires forall(k, 0, len(glyphs), 0 <= glyphs[k].ClusterIndex && glyphs[k].ClusterIndex < textLen)
+//@   requires clustersMonotone(glyphs, bool(dir))
+//@   ensures [same-counts] forall(k, 1, len(glyphs), implies(glyphs[k].ClusterIndex == glyphs[k-1].ClusterIndex, glyphs[k].GlyphCount == glyphs[k-1].GlyphCount && glyphs[k].RuneCount == glyphs[k-1].RuneCount))
+//@   ensures [glyph-count] forall(k, 0, len(glyphs), implies(isClusterStart(glyphs, k), glyphs[k].GlyphCount >= 1 && k+glyphs[k].GlyphCount <= len(glyphs) &&
+//@     | forall(m, k, k+glyphs[k].GlyphCount, glyphs[m].ClusterIndex == glyphs[k].ClusterIndex) &&
+//@     | (k+glyphs[k].GlyphCount == len(glyphs) || glyphs[k+glyphs[k].GlyphCount].ClusterIndex != glyphs[k].ClusterIndex)))
+//@   ensures [rune-count-ltr] implies(!bool(dir), forall(k, 0, len(glyphs), implies(isClusterStart(glyphs, k),
+//@     | glyphs[k].RuneCount == ite(k+glyphs[k].GlyphCount == len(glyphs), textLen, glyphs[k+glyphs[k].GlyphCount].ClusterIndex) - glyphs[k].ClusterIndex)))
+//@   ensures [rune-count-rtl] implies(bool(dir), forall(k, 0, len(glyphs), implies(isClusterStart(glyphs, k),
+//@     | glyphs[k].RuneCount == ite(k == 0, textLen, glyphs[k-1].ClusterIndex) - glyphs[k].ClusterIndex)))
+//@   ensures [positive] forall(k, 0, len(glyphs), glyphs[k].RuneCount >= 1 && glyphs[k].GlyphCount >= 1)
+//@   modifies glyphs[:].GlyphCount; glyphs[:].RuneCount
+//@   loop 1 invariant [cur] ite(rangeindex >= 0, currentCluster == glyphs[rangeindex].ClusterIndex && previousCluster == currentCluster && glyphsInCluster == glyphs[rangeindex].GlyphCount && runesInCluster == glyphs[rangeindex].RuneCount, currentCluster == -1 && previousCluster == textLen)
+//@   loop 1 invariant [same-counts] forall(k, 1, rangeindex+1, implies(glyphs[k].ClusterIndex == glyphs[k-1].ClusterIndex, glyphs[k].GlyphCount == glyphs[k-1].GlyphCount && glyphs[k].RuneCount == glyphs[k-1].RuneCount))
+//@   loop 1 invariant [glyph-count] forall(k, 0, rangeindex+1, implies(isClusterStart(glyphs, k), glyphs[k].GlyphCount >= 1 && k+glyphs[k].GlyphCount <= len(glyphs) &&
+//@     | forall(m, k, k+glyphs[k].GlyphCount, glyphs[m].ClusterIndex == glyphs[k].ClusterIndex) &&
+//@     | (k+glyphs[k].GlyphCount == len(glyphs) || glyphs[k+glyphs[k].GlyphCount].ClusterIndex != glyphs[k].ClusterIndex)))
+//@   loop 1 invariant [rune-count-ltr] implies(!bool(dir), forall(k, 0, rangeindex+1, implies(isClusterStart(glyphs, k),
+//@     | glyphs[k].RuneCount == ite(k+glyphs[k].GlyphCount == len(glyphs), textLen, glyphs[k+glyphs[k].GlyphCount].ClusterIndex) - glyphs[k].ClusterIndex)))
+//@   loop 1 invariant [rune-count-rtl] implies(bool(dir), forall(k, 0, rangeindex+1, implies(isClusterStart(glyphs, k),
+//@     | glyphs[k].RuneCount == ite(k == 0, textLen, glyphs[k-1].ClusterIndex) - glyphs[k].ClusterIndex)))
+//@   loop 1 invariant [positive] forall(k, 0, rangeindex+1, glyphs[k].RuneCount >= 1 && glyphs[k].GlyphCount >= 1)
+//@   loop 2 invariant [k-range] i+1 <= k && k <= len(glyphs) && glyphsInCluster == k-i && nextCluster == -1 && g == glyphs[i].ClusterIndex && currentCluster == g
+//@   loop 2 invariant [equal-so-far] forall(m, i, k, glyphs[m].ClusterIndex == g)
